@@ -394,7 +394,7 @@ where
         type Erased = dyn DynSelector<Pop> + Send + Sync;
         // (one in 32: more than a thousand levels — a structure assembled at run time is as deep as its data)
         let fp = cx.base.state_fingerprint().2;
-        let levels = if fp % 32 == 7 { 1000 + ((fp / 32) % 2000) as usize } else { 2 + (fp % 99) as usize };
+        let levels = if fp % 32 == 7 { 1000 + ((fp / 32) % 600) as usize } else { 2 + (fp % 99) as usize };
         if levels > 1024 {
             obs.hit("probe.erased-selector-wrapped-more-than-1024-times");
         }
@@ -557,7 +557,7 @@ where
     {
         type Erased<I, O> = dyn DynOperator<I, BoxErr, Output = O> + Send + Sync;
         let fp = cx.base.state_fingerprint().2;
-        let levels = if fp % 16 == 3 { 1000 + ((fp / 16) % 2000) as usize } else { 2 + (fp % 99) as usize };
+        let levels = if fp % 16 == 3 { 1000 + ((fp / 16) % 600) as usize } else { 2 + (fp % 99) as usize };
         if levels > 1024 {
             obs.hit("probe.erased-operator-wrapped-more-than-1024-times");
         }
